@@ -128,15 +128,19 @@ Proof.
     destruct (apply_use s3 r u) as [tr|] eqn:U; [|discriminate].
     destruct (push_top tr (frames s3)) as [fs|] eqn:P; [|discriminate]. intro H; injection H as <-.
     destruct (mk_instance_frames _ _ _ _ _ _ _ M) as [Ef3 _]. rewrite (resolve_src_frames _ _ _ _ _ R) in Ef3. rewrite Ef3 in P.
-    exists r, tr, s3. split; [exact U | exact P].
-  - destruct (lookup_node (mapping s) node) as [[c0|m]|];
-      [intro H; injection H as <-; left; split; reflexivity | |];
-      (destruct (guard s (expr_cids e ++ window_cids w)); [|discriminate]);
-      (destruct e; destruct plain_ok; cbv beta iota;
-        try (destruct (push_top _ (frames s)) as [fs|] eqn:P; [|discriminate]; intro H; injection H as <-; right; split; [exact P | reflexivity]);
-        intro H; injection H as <-; left; split; reflexivity).
+    exists r, tr, s3. split; [exact U | first [exact P | reflexivity]].
+  - destruct (lookup_node (mapping s) node) as [[c0|m]|].
+    + intro H; injection H as <-. left. split; reflexivity.
+    + destruct (guard s (expr_cids e ++ window_cids w)); [|discriminate].
+      destruct e; destruct plain_ok; cbv beta iota zeta;
+        try (destruct (push_top _ (frames s)) as [fs|] eqn:P; [|discriminate]; intro H; injection H as <-; right; split; [first [exact P | reflexivity] | reflexivity]).
+      intro H; injection H as <-. left. split; reflexivity.
+    + destruct (guard s (expr_cids e ++ window_cids w)); [|discriminate].
+      destruct e; destruct plain_ok; cbv beta iota zeta;
+        try (destruct (push_top _ (frames s)) as [fs|] eqn:P; [|discriminate]; intro H; injection H as <-; right; split; [first [exact P | reflexivity] | reflexivity]).
+      intro H; injection H as <-. left. split; reflexivity.
   - destruct (simple t) eqn:Hs; cbn [andb]; [|discriminate]. destruct (guard s (transform_uses t)); [|discriminate].
-    destruct (push_top t (frames s)) as [fs|] eqn:P; [|discriminate]. intro H; injection H as <-. split; [reflexivity | exact P].
+    destruct (push_top t (frames s)) as [fs|] eqn:P; [|discriminate]. intro H; injection H as <-. split; [reflexivity | first [exact P | reflexivity]].
   - destruct (frames s) as [|[[| |] p] fs]; try discriminate. destruct (guard s (map snd frame)); [|discriminate].
     intro H; injection H as <-. exists p, fs. split; reflexivity.
   - destruct (frames s) as [|[[|t|] p] fs]; try discriminate. destruct (guard s (map snd frame)); [|discriminate].
@@ -146,12 +150,103 @@ Proof.
     set (s3 := mkL (next_cid s2) (next_tid s2) (redirect (combine (map snd frame) (tref_cids r)) (mapping s2)) (frames s2) (tables s2)).
     destruct (apply_use s3 r u) as [tr|] eqn:U; [|discriminate].
     destruct (push_top tr (frames s3)) as [fs'|] eqn:P; [|discriminate]. intro H; injection H as <-.
-    cbn [s3 frames] in P. rewrite Ef2 in P. exists t, p, fs, r, tr, s3. repeat split; assumption.
+    cbn [s3 frames] in P. rewrite Ef2 in P. exists t, p, fs, r, tr, s3. repeat split; first [assumption | reflexivity].
   - destruct (frames s) as [|[[| |] p] fs]; try discriminate.
-    destruct (push_top (TLoop p) fs) as [fs'|] eqn:P; [|discriminate]. intro H; injection H as <-. exists p, fs. split; [reflexivity | exact P].
+    destruct (push_top (TLoop p) fs) as [fs'|] eqn:P; [|discriminate]. intro H; injection H as <-. exists p, fs. split; [reflexivity | first [exact P | reflexivity]].
 Qed.
 
 Lemma push_top_last_gen t fs s1 : push_top t fs = Some (frames s1) -> top_last s1 = Some t.
 Proof.
   intro Hp. apply push_top_some in Hp as [k [p [r [_ E]]]]. unfold top_last. rewrite E. apply last_opt_snoc.
+Qed.
+
+Lemma simple_tvok vis t : simple t = true -> tvok vis t = subsetb (transform_uses t) vis.
+Proof. destruct t; cbn [simple]; try discriminate; reflexivity. Qed.
+
+Theorem estep_vstep s es lo bs s' es' :
+  einv (frames s) es -> estep (s, es) (lo, bs) = Some (s', es') ->
+  exists o, elaborate s lo = Some o /\ vstep s o = Some s' /\ einv (frames s') es'.
+Proof.
+  intros HI. unfold estep. destruct (elaborate s lo) as [o|] eqn:El; [|discriminate].
+  destruct (step s o) as [s1|] eqn:St; [|discriminate]. intro H. exists o. split; [reflexivity|].
+  pose proof (step_frames _ _ _ St) as SF. unfold vstep. rewrite St. cbv zeta in H.
+  enough (vguard s o s1 = true /\ s' = s1 /\ einv (frames s1) es') as [G [-> E]] by (rewrite G; auto).
+  destruct o; cbn [vguard].
+  - (* ODeclExtern *) injection H as <- <-. rewrite SF. auto.
+  - (* OBegin *) destruct (src_closed s0); [|discriminate]. injection H as <- <-. destruct SF as [k [r [-> _]]].
+    repeat split. intros ? [].  exact HI.
+  - (* OBeginLoop *) injection H as <- <-. rewrite SF. repeat split. intros ? []. exact HI.
+  - (* OInstance *)
+    destruct (src_closed s0); cbn [andb] in *; [|discriminate].
+    destruct (subsetb (entries_of true bs) (fvis (frames s1))) eqn:Hp; [|discriminate].
+    destruct SF as [r [tr [s3 [U P]]]]. rewrite (fvis_push _ _ _ P) in Hp. apply subsetb_incl in Hp.
+    unfold top_ok. rewrite (push_top_last_gen _ _ _ P).
+    assert (s' = s1 /\ es' = reset_top es /\ match u with UJoin _ f => subsetb (expr_cids f) (top_of es ++ entries_of true bs) = true | _ => True end)
+      as [-> [-> Hc]].
+    { destruct u as [|sd f|]; [injection H as <- <-; auto | | injection H as <- <-; auto].
+      destruct (subsetb (expr_cids f) (top_of es ++ entries_of true bs)); [injection H as <- <-; auto | discriminate]. }
+    split; [eapply use_tvok; [exact U | apply einv_top; exact HI | exact Hp | exact Hc]|].
+    split; [reflexivity | eapply einv_reset_push; eassumption].
+  - (* ODeclare *)
+    destruct (subsetb (entries_of false bs) (fvis (frames s))) eqn:Hpre; [|discriminate]. apply subsetb_incl in Hpre.
+    pose proof (einv_add _ _ _ HI Hpre) as HI1.
+    destruct SF as [[Ef En]|[P En]].
+    + rewrite En, N.eqb_refl in H |- *. destruct (lookup_node (mapping s1) node) as [[c|m]|]; try discriminate.
+      split; [reflexivity|]. rewrite Ef. destruct (memN c (fvis (frames s))) eqn:Hm; injection H as <- <-; split; try reflexivity; [|exact HI1].
+      apply einv_add; [exact HI1|]. intros x [<-|[]]. apply memN_In. exact Hm.
+    + assert (next_cid s + 1 =? next_cid s = false) as Ne by (apply N.eqb_neq; lia). rewrite En, Ne in H |- *.
+      destruct (subsetb (expr_cids e ++ window_cids w) (top_of (add_top (entries_of false bs) es))) eqn:Hc; [|discriminate].
+      injection H as <- <-. unfold top_ok. rewrite (push_top_last_gen _ _ _ P). cbn [tvok transform_uses].
+      split; [eapply subsetb_trans; [exact Hc | apply einv_top; exact HI1]|]. split; [reflexivity|].
+      pose proof P as P'. apply push_top_some in P' as [k [p [r [Ef _]]]].
+      destruct (add_top (entries_of false bs) es) as [|e1 er] eqn:Ea; [rewrite Ef in HI1; contradiction|].
+      cbn [add_top]. eapply einv_push; [exact P | exact HI1 |].
+      cbn [tvis transform_diags snd]. apply incl_app; [|intros x [<-|[]]; apply in_or_app; right; left; reflexivity].
+      intros x Hx. apply in_or_app. left. apply (einv_top _ _ HI1). exact Hx.
+  - (* OPush *)
+    destruct (subsetb (entries_of false bs) (fvis (frames s))) eqn:Hpre; cbn [andb] in H; [|discriminate].
+    destruct (subsetb (transform_uses t) (top_of es ++ entries_of false bs)) eqn:Hc; [|discriminate]. injection H as <- <-.
+    destruct SF as [Hs P]. apply subsetb_incl in Hpre.
+    split; [rewrite (simple_tvok _ _ Hs); eapply subsetb_trans; [exact Hc | apply incl_app; [apply einv_top; exact HI | exact Hpre]]|].
+    split; [reflexivity | eapply einv_reset_push; eassumption].
+  - (* OEndTable *)
+    destruct (subsetb (map snd frame) (fvis (frames s))) eqn:Hf; [|discriminate]. injection H as <- <-.
+    destruct SF as [p [fs [Ef ->]]]. split; [reflexivity|]. split; [reflexivity|]. rewrite Ef in HI. eapply einv_tl; exact HI.
+  - (* OEndInline *)
+    destruct (subsetb (map snd frame) (fvis (frames s))) eqn:Hf; cbn [andb] in *; [|discriminate].
+    destruct (subsetb (entries_of true bs) (fvis (frames s1))) eqn:Hp; [|discriminate].
+    destruct SF as [t [p [fs [r [tr [s3 [Ef [U P]]]]]]]]. rewrite (fvis_push _ _ _ P) in Hp. apply subsetb_incl in Hp.
+    rewrite Ef in HI |- *. cbn [tl]. pose proof (einv_tl _ _ _ HI) as HI1.
+    unfold top_ok. rewrite (push_top_last_gen _ _ _ P).
+    assert (s' = s1 /\ es' = reset_top (tl es) /\ match u with UJoin _ f => subsetb (expr_cids f) (top_of (tl es) ++ entries_of true bs) = true | _ => True end)
+      as [-> [-> Hc]].
+    { destruct u as [|sd f|]; [injection H as <- <-; auto | | injection H as <- <-; auto].
+      destruct (subsetb (expr_cids f) (top_of (tl es) ++ entries_of true bs)); [injection H as <- <-; auto | discriminate]. }
+    split; [eapply use_tvok; [exact U | apply einv_top; exact HI1 | exact Hp | exact Hc]|].
+    split; [reflexivity | eapply einv_reset_push; eassumption].
+  - (* OEndLoop *)
+    injection H as <- <-. destruct SF as [p [fs [Ef P]]]. rewrite Ef in HI.
+    split; [reflexivity|]. split; [reflexivity|]. eapply einv_reset_push; [exact P | eapply einv_tl; exact HI].
+Qed.
+
+Lemma erun_vrun l : forall s es k s' es', einv (frames s) es -> erun (s, es) l k = inl (s', es') ->
+  exists ops, vrun s ops = Some s'.
+Proof.
+  induction l as [|[lo bs] l IH]; intros s es k s' es' HI; cbn [erun].
+  - intro H; injection H as <- <-. exists []. reflexivity.
+  - destruct (estep (s, es) (lo, bs)) as [[s1 es1]|] eqn:E; [|discriminate].
+    destruct (estep_vstep _ _ _ _ _ _ HI E) as [o [El [V HI1]]]. cbn [fst snd]. rewrite El.
+    destruct (forallb (check_obs s s1 o) bs); [|discriminate]. intro H. destruct (IH _ _ _ _ _ HI1 H) as [ops R].
+    exists (o :: ops). cbn [vrun]. rewrite V. exact R.
+Qed.
+
+(* a trace that passes the entry discipline ends in a well-formed RQ *)
+Theorem entries_ok_wf l q : entries_ok l q = true -> rq_wf q = true.
+Proof.
+  unfold entries_ok, entries_verdict. destruct (erun (init, []) l 0) as [[s es]|k] eqn:R.
+  - cbn [fst]. destruct (finish s) as [q'|] eqn:F.
+    + destruct (rq_eqb q' q) eqn:E; [|intro H; apply N.eqb_eq in H; lia]. intros _. apply rq_eqb_sound in E. subst q'.
+      destruct (erun_vrun l init [] 0%nat s es I R) as [ops V]. eapply strict_runs_emit_wf; eassumption.
+    + intro H; apply N.eqb_eq in H; lia.
+  - intro H; apply N.eqb_eq in H; lia.
 Qed.
